@@ -63,7 +63,8 @@ def run(o, log):
                     raw_tail=out[-3000:])
     verified, nerr = int(m.group(1)), int(m.group(2))
     smt = re.search(r"total smt-time:\s+(\d+) ms", out)
-    res = dict(base, checks=verified + nerr, time_s=round(wall, 1), summary=m.group(0),
+    res = dict(base, checks=verified + nerr, time_s=round(wall, 1),
+               summary=m.group(0) + " (one error is required: the must-fail twin with `ensures false`)",
                smt_ms=int(smt.group(1)) if smt else None, raw_tail=out[-3000:],
                extraction={k: info[k] for k in ("source", "span_bytes", "sha256_source_span", "sha256_extracted_body", "verbatim")})
     if "rlimit" in out.lower() and "exceeded" in out.lower():
